@@ -7,14 +7,20 @@ translator into the scratch directory, concatenate the generated file with the c
 (SLV/Gen/BiTie.lean or MulTie.lean, its `import SLV.Gen.*` line dropped) into one scratch Lean file and run
 `lake env lean` on it.  Reports which theorems stop checking.  The scratch directory is removed at the end.
 
-  rs2lean_selftest.py [--src /repo/src] [--keep] [--match TEXT]
+  rs2lean_selftest.py [--src /repo/src] [--keep] [--match TEXT] [--file F]
+     --match "cmp "  the mutations of the approximate comparisons of BOpinion;  --match "PartialEq: "  those of the derived /
+     hand-written `==` (property C20);  --match control  the unmutated tree (both outputs)
 """
 import os, re, shutil, subprocess, sys, tempfile, argparse
 
 HERE = os.path.dirname(os.path.abspath(__file__))
 LEAN = "/verif/lean"
 
-# (id, file, old, new, expectation)   expectation: theorem that must break | "TRANSLATOR" | None (all pass)
+# (id, file, old, new, expectation)   expectation: theorem that must break | None (all pass: rc 0, nothing broken) |
+#   ("exact", translator exit code, {exactly these gen_* theorems break}) |
+#   ("file", exit code, {these must break}, {these must not}) | ("fatal",)
+#   file: the source file that is edited; it selects the output that is checked (Bi.lean + BiTie.lean for bi.rs,
+#   convert.rs, approx_ext.rs, errors.rs; Mul.lean + MulTie.lean otherwise); "mul.rs@bi" edits mul.rs and checks Bi.lean
 MUTATIONS = [
     ("control", "bi.rs", None, None, None),
     ("mul: base_rate -> b() in one factor", "bi.rs",
@@ -115,7 +121,109 @@ MUTATIONS = [
     ("convert: b()[1] -> b()[0] (owned variant)", "convert.rs",
      "value.b()[0],\n                    value.b()[1],", "value.b()[0],\n                    value.b()[0],",
      ("exact", 0, {"gen_Opinion1d_into_BOpinion_eq"})),
+    # ---- comparisons (property C20): impl AbsDiffEq / RelativeEq / UlpsEq for BOpinion<$ft>, derived / hand-written `==`
+    ("cmp relative_eq: epsilon and max_relative swapped in the u component", "bi.rs",
+     "self.u().relative_eq(other.u(), epsilon, max_relative)", "self.u().relative_eq(other.u(), max_relative, epsilon)",
+     ("exact", 0, {"gen_BOpinion_relative_eq_eq"})),
+    ("cmp abs_diff_eq: the d conjunct dropped (three components compared)", "bi.rs",
+     "self.b().abs_diff_eq(other.b(), epsilon)\n                    && self.d().abs_diff_eq(other.d(), epsilon)",
+     "self.b().abs_diff_eq(other.b(), epsilon)", ("exact", 0, {"gen_BOpinion_abs_diff_eq_eq"})),
+    ("cmp abs_diff_eq: && -> || before the a conjunct", "bi.rs",
+     "&& self.a().abs_diff_eq(other.a(), epsilon)", "|| self.a().abs_diff_eq(other.a(), epsilon)",
+     ("exact", 0, {"gen_BOpinion_abs_diff_eq_eq"})),
+    ("cmp relative_eq: && -> || after the b conjunct", "bi.rs",
+     "&& self.d().relative_eq(other.d(), epsilon, max_relative)", "|| self.d().relative_eq(other.d(), epsilon, max_relative)",
+     ("exact", 0, {"gen_BOpinion_relative_eq_eq"})),
+    ("cmp ulps_eq: the b test hoisted into an early return (outside the subset => hole)", "bi.rs",
+     "self.b().ulps_eq(other.b(), epsilon, max_ulps)\n                    && self.d().ulps_eq(other.d(), epsilon, max_ulps)",
+     "if !self.b().ulps_eq(other.b(), epsilon, max_ulps) {\n                    return false;\n                }\n"
+     "                self.d().ulps_eq(other.d(), epsilon, max_ulps)", ("exact", 3, {"gen_BOpinion_ulps_eq_eq"})),
+    ("cmp ulps_eq: the u test hoisted in front of the conjunction (order of the conjuncts)", "bi.rs",
+     "self.b().ulps_eq(other.b(), epsilon, max_ulps)\n                    && self.d().ulps_eq(other.d(), epsilon, max_ulps)\n"
+     "                    && self.u().ulps_eq(other.u(), epsilon, max_ulps)",
+     "self.u().ulps_eq(other.u(), epsilon, max_ulps)\n                    && self.b().ulps_eq(other.b(), epsilon, max_ulps)\n"
+     "                    && self.d().ulps_eq(other.d(), epsilon, max_ulps)", ("exact", 0, {"gen_BOpinion_ulps_eq_eq"})),
+    ("cmp ulps_eq: the b test hoisted into a `let` (same function: the tie must HOLD)", "bi.rs",
+     "self.b().ulps_eq(other.b(), epsilon, max_ulps)\n                    && self.d().ulps_eq(other.d(), epsilon, max_ulps)",
+     "let t = self.b().ulps_eq(other.b(), epsilon, max_ulps);\n"
+     "                t && self.d().ulps_eq(other.d(), epsilon, max_ulps)", None),
+    ("cmp ulps_eq: a compared with d", "bi.rs", "self.a().ulps_eq(other.a(), epsilon, max_ulps)",
+     "self.a().ulps_eq(other.d(), epsilon, max_ulps)", ("exact", 0, {"gen_BOpinion_ulps_eq_eq"})),
+    ("cmp abs_diff_eq: f64::from differences instead of delegating (outside the subset => hole)", "bi.rs",
+     "self.b().abs_diff_eq(other.b(), epsilon)\n",
+     "(f64::from(*self.b()) - f64::from(*other.b())).abs() <= f64::from(epsilon)\n",
+     ("exact", 3, {"gen_BOpinion_abs_diff_eq_eq"})),
+    ("cmp relative_eq: delegates to abs_diff_eq in the a component", "bi.rs",
+     "&& self.a().relative_eq(other.a(), epsilon, max_relative)", "&& self.a().abs_diff_eq(other.a(), epsilon)",
+     ("exact", 0, {"gen_BOpinion_relative_eq_eq"})),
+    ("cmp abs_diff_eq: comparison on the whole opinion (not a scalar receiver => hole)", "bi.rs",
+     "&& self.a().abs_diff_eq(other.a(), epsilon)", "&& self.abs_diff_eq(other, epsilon)",
+     ("exact", 3, {"gen_BOpinion_abs_diff_eq_eq"})),
+    ("cmp guard: default_epsilon no longer the scalar type's (all three comparisons become holes)", "bi.rs",
+     "<$ft as AbsDiffEq>::default_epsilon()", "<$ft as AbsDiffEq>::default_epsilon() * 2.0",
+     ("exact", 3, {"gen_BOpinion_abs_diff_eq_eq", "gen_BOpinion_relative_eq_eq", "gen_BOpinion_ulps_eq_eq"})),
+    ("cmp guard: type Epsilon = f64", "bi.rs", "type Epsilon = <$ft as AbsDiffEq>::Epsilon;", "type Epsilon = f64;",
+     ("exact", 3, {"gen_BOpinion_abs_diff_eq_eq", "gen_BOpinion_relative_eq_eq", "gen_BOpinion_ulps_eq_eq"})),
+    ("cmp guard: default_max_relative returns default_epsilon", "bi.rs", "<$ft as RelativeEq>::default_max_relative()",
+     "<$ft as AbsDiffEq>::default_epsilon()", ("exact", 3, {"gen_BOpinion_relative_eq_eq"})),
+    ("cmp guard: default_max_ulps a constant", "bi.rs", "<$ft as UlpsEq>::default_max_ulps()", "16",
+     ("exact", 3, {"gen_BOpinion_ulps_eq_eq"})),
+    ("PartialEq: PartialEq removed from the derive of BOpinion", "bi.rs",
+     "#[derive(Debug, PartialEq)]\npub struct BOpinion<T>", "#[derive(Debug)]\npub struct BOpinion<T>",
+     ("exact", 3, {"gen_eq_BOpinion_eq"})),
+    ("PartialEq: PartialEq removed from the derive of BSimplex (BOpinion's == delegates to it)", "bi.rs",
+     "#[derive(Debug, PartialEq)]\npub struct BSimplex<T>", "#[derive(Debug)]\npub struct BSimplex<T>",
+     ("exact", 3, {"gen_eq_BSimplex_eq", "gen_eq_BOpinion_eq"})),
+    ("PartialEq: derive of BOpinion replaced by a hand-written impl that compares the base rate only", "bi.rs",
+     "#[derive(Debug, PartialEq)]\npub struct BOpinion<T> {\n    pub simplex: BSimplex<T>,\n    pub base_rate: T,\n}",
+     "#[derive(Debug)]\npub struct BOpinion<T> {\n    pub simplex: BSimplex<T>,\n    pub base_rate: T,\n}\n"
+     "impl<T: PartialEq> PartialEq for BOpinion<T> {\n    fn eq(&self, other: &Self) -> bool {\n"
+     "        self.base_rate == other.base_rate\n    }\n}", ("exact", 3, {"gen_eq_BOpinion_eq"})),
+    ("PartialEq: hand-written PartialEq impl next to the derive of BOpinion", "bi.rs",
+     "impl_bop!(f32);", "impl PartialEq<f32> for BOpinion<f32> {\n    fn eq(&self, o: &f32) -> bool {\n"
+     "        self.base_rate == *o\n    }\n}\nimpl_bop!(f32);", ("exact", 3, {"gen_eq_BOpinion_eq"})),
+    ("PartialEq: a field added to BOpinion (no convention for its ==)", "bi.rs",
+     "    pub simplex: BSimplex<T>,\n    pub base_rate: T,\n}", "    pub simplex: BSimplex<T>,\n    pub base_rate: T,\n    pub tag: u8,\n}",
+     ("exact", 3, {"gen_eq_BOpinion_eq"})),
+    ("PartialEq: derive of BOpinion behind cfg_attr", "bi.rs",
+     "#[derive(Debug, PartialEq)]\npub struct BOpinion<T>", "#[derive(Debug)]\n#[cfg_attr(test, derive(PartialEq))]\npub struct BOpinion<T>",
+     ("exact", 3, {"gen_eq_BOpinion_eq"})),
+    ("PartialEq: PartialEq removed from the derive of Simplex (mul.rs), seen from Bi.lean: BSimplex wraps a Simplex1d",
+     "mul.rs@bi", "#[derive(Default, Clone, PartialEq)]\npub struct Simplex<T, V>", "#[derive(Default, Clone)]\npub struct Simplex<T, V>",
+     ("exact", 3, {"gen_eq_BSimplex_eq", "gen_eq_BOpinion_eq"})),
     # ---- mul.rs
+    ("control: Mul.lean / MulTie.lean on the unmutated tree", "mul.rs", None, None, None),
+    ("PartialEq: PartialEq removed from the derive of Simplex (OpinionBase's == delegates to it)", "mul.rs",
+     "#[derive(Default, Clone, PartialEq)]\npub struct Simplex<T, V>", "#[derive(Default, Clone)]\npub struct Simplex<T, V>",
+     ("exact", 3, {"gen_eq_Simplex_eq", "gen_eq_OpinionBase_eq"})),
+    ("PartialEq: PartialEq removed from the derive of OpinionBase", "mul.rs",
+     "#[derive(Default, Clone, PartialEq)]\npub struct OpinionBase<S, T>", "#[derive(Default, Clone)]\npub struct OpinionBase<S, T>",
+     ("exact", 3, {"gen_eq_OpinionBase_eq"})),
+    ("PartialEq: fields of Simplex reordered (the derived == compares in declaration order)", "mul.rs",
+     "pub struct Simplex<T, V> {\n    pub belief: T,\n    pub uncertainty: V,\n}",
+     "pub struct Simplex<T, V> {\n    pub uncertainty: V,\n    pub belief: T,\n}",
+     ("exact", 0, {"gen_eq_Simplex_eq", "gen_eq_OpinionBase_eq"})),
+    ("PartialEq: PartialEq removed from the derive of MArr2 (MArr3 nests it)", "multi_array/non_labeled.rs",
+     "#[derive(Clone, Debug, PartialEq)]\npub struct MArr2<", "#[derive(Clone, Debug)]\npub struct MArr2<",
+     ("exact", 3, {"gen_eq_MArr2_eq", "gen_eq_MArr3_eq"})),
+    ("PartialEq: PartialEq removed from the derive of MArr1 (MArr2 / MArr3 nest it)", "multi_array/non_labeled.rs",
+     "#[derive(Clone, Debug, PartialEq)]\npub struct MArr1<", "#[derive(Clone, Debug)]\npub struct MArr1<",
+     ("exact", 3, {"gen_eq_MArr1_eq", "gen_eq_MArr2_eq", "gen_eq_MArr3_eq"})),
+    ("PartialEq: MArrD1::eq compares a prefix (MArrD2 / MArrD3 nest it)", "multi_array/labeled.rs",
+     "self.inner == other.inner", "self.inner[..1] == other.inner[..1]",
+     ("exact", 3, {"gen_eq_MArrD1_eq", "gen_eq_MArrD2_eq", "gen_eq_MArrD3_eq"})),
+    ("PartialEq: MArrD2::eq compares the first row only (MArrD3 nests it)", "multi_array/labeled.rs",
+     "    D0: Domain,\n    D1: Domain,\n    V: cmp::PartialEq,\n{\n    fn eq(&self, other: &Self) -> bool {\n        self.inner == other.inner",
+     "    D0: Domain,\n    D1: Domain,\n    V: cmp::PartialEq,\n{\n    fn eq(&self, other: &Self) -> bool {\n"
+     "        self.inner.iter().take(1).eq(other.inner.iter().take(1))", ("exact", 3, {"gen_eq_MArrD2_eq", "gen_eq_MArrD3_eq"})),
+    ("PartialEq: MArrD3::eq compares self with self", "multi_array/labeled.rs",
+     "    D2: Domain,\n    V: cmp::PartialEq,\n{\n    fn eq(&self, other: &Self) -> bool {\n        self.inner == other.inner",
+     "    D2: Domain,\n    V: cmp::PartialEq,\n{\n    fn eq(&self, other: &Self) -> bool {\n        self.inner == self.inner",
+     ("exact", 3, {"gen_eq_MArrD3_eq"})),
+    ("PartialEq: MArrD3's impl overrides ne", "multi_array/labeled.rs",
+     "    D2: Domain,\n    V: cmp::PartialEq,\n{\n    fn eq(&self, other: &Self) -> bool {\n        self.inner == other.inner\n    }",
+     "    D2: Domain,\n    V: cmp::PartialEq,\n{\n    fn eq(&self, other: &Self) -> bool {\n        self.inner == other.inner\n    }\n"
+     "    fn ne(&self, _other: &Self) -> bool {\n        false\n    }", ("exact", 3, {"gen_eq_MArrD3_eq"})),
     ("guard: Simplex::u returns something else", "mul.rs",
      "pub fn u(&self) -> &V {\n        &self.uncertainty", "pub fn u(&self) -> &V {\n        &self.belief_sum",
      ("file", 3, {"gen_inverse_eq", "gen_fuse_eq", "gen_product2_eq", "gen_product2_labeled_eq", "gen_Simplex_vacuous_eq"},
@@ -303,6 +411,8 @@ def main():
             shutil.copytree(a.src, src)
             os.makedirs(out)
             which = "bi" if fname in ("bi.rs", "convert.rs", "approx_ext.rs", "errors.rs") else "mul"
+            if "@" in fname:                 # "mul.rs@bi": mutate mul.rs, check Bi.lean / BiTie.lean
+                fname, which = fname.split("@")
             if old == "DELETE":
                 os.remove(os.path.join(src, fname))
             elif old is not None:
